@@ -117,8 +117,9 @@ type Call struct {
 
 type StoreOp struct {
 	Seq   int64
-	N     int // index among store ops
-	Ex    int // exchange in progress on the caller side when the op ran (-1 none)
+	Gid   uint64 // goroutine the operation ran on (the caller's for foreground work)
+	N     int    // index among store ops
+	Ex    int    // exchange in progress on the caller side when the op ran (-1 none)
 	NowNs int64
 	Op    string // get | set | delete
 	Key   string
@@ -277,7 +278,7 @@ func (c *recConn) Get(key string) ([]byte, error) {
 		w.yield(w.taskOf(gid(), -1), "get "+key)
 	}
 	f, has, _ := c.fault()
-	op := &StoreOp{Seq: w.seq.Add(1), Ex: int(w.curEx.Load()), NowNs: w.now(), Op: "get", Key: key}
+	op := &StoreOp{Seq: w.seq.Add(1), Gid: gid(), Ex: int(w.curEx.Load()), NowNs: w.now(), Op: "get", Key: key}
 	if has {
 		op.Fault = f.Kind
 		switch f.Kind {
@@ -313,7 +314,7 @@ func (c *recConn) Set(key string, value []byte) error {
 		w.yield(w.taskOf(gid(), -1), "set "+key)
 	}
 	f, has, _ := c.fault()
-	op := &StoreOp{Seq: w.seq.Add(1), Ex: int(w.curEx.Load()), NowNs: w.now(), Op: "set", Key: key, Val: append([]byte(nil), value...)}
+	op := &StoreOp{Seq: w.seq.Add(1), Gid: gid(), Ex: int(w.curEx.Load()), NowNs: w.now(), Op: "set", Key: key, Val: append([]byte(nil), value...)}
 	if has {
 		op.Fault = f.Kind
 		switch f.Kind {
@@ -350,7 +351,7 @@ func (c *recConn) Delete(key string) error {
 		w.yield(w.taskOf(gid(), -1), "delete "+key)
 	}
 	f, has, _ := c.fault()
-	op := &StoreOp{Seq: w.seq.Add(1), Ex: int(w.curEx.Load()), NowNs: w.now(), Op: "delete", Key: key}
+	op := &StoreOp{Seq: w.seq.Add(1), Gid: gid(), Ex: int(w.curEx.Load()), NowNs: w.now(), Op: "delete", Key: key}
 	if has {
 		op.Fault = f.Kind
 		switch f.Kind {
